@@ -370,6 +370,8 @@ let cmd_loop (_param : string) (arg : string) (_impl : string) : string * string
           let d09 = differs p09 && List.length (proj p09 items) = List.length (proj p09 model_items) in
           let d11 = differs p11 in
           let d12 = differs p12 in
+          (* what get_field answers is C12's own clause, whatever else differs *)
+          if d12 && d02 then fails := "C12:field-lookup-result-differs" :: !fails;
           if d02 then fails := "C02:callbacks-differ-from-the-flat-map-specification" :: !fails
           else begin
             if d15 then fails := "C15:handling-algorithm-or-installed-set-differs" :: !fails;
